@@ -236,6 +236,25 @@ def function_body(code):
     return "\n".join(out)
 
 
+def wide_plans():
+    """return statements of 65 .. 257 groups a few of whose names are adversarial (the separator of a rendered list, quotes, brackets, a keyword argument):
+    size and content together — a renderer that lays out or re-scans long lists meets the payload inside them"""
+    L = lambda t: gen.lit_str(t, quote='"' if '"' not in t else "'")
+    payloads = ["a', 'b", 'a", "b', "', '", "',", ", ", "'], weights=[", "[", "]", "('", "')", "\\', '", "x' # ", "', PWNED(), '", "{0}", "%s", "\\"]
+    plans = []
+    for n in (65, 72, 73, 100, 129, 257):
+        base_names = ["g%d" % i for i in range(n)]
+        variants = []
+        for v in range(5):
+            names = list(base_names)
+            if v:
+                for j, pos in enumerate((0, 1, n // 2, n - 2, n - 1)):
+                    names[pos] = payloads[(v * 5 + j) % len(payloads)] + str(pos)
+            variants.append(gen.Program("wide%d" % n, L("s"), ["u"], ("ret", [(L(x), "1") for x in names]), {"u": "any"}))
+        plans.append(variants)
+    return plans
+
+
 def run_batch(ctx, n, with_model=True):
     from pyab_experiment.utils.wraper_functions import parse_source, generate_code
     from pyab_experiment.codegen.python.python_generator import PythonCodeGen
@@ -255,6 +274,7 @@ def run_batch(ctx, n, with_model=True):
             variants = [prog] + [subst_program(prog, rng) for _ in range(4)]
             plan.append(variants)
         plan += reflect_plans(rng)
+        plan += wide_plans()
         # the same substitution games inside a source of more than 64 KiB (a pre-pass or buffer that only exists for big sources)
         pad = "/* " + "banner line\n" * 6000 + " */\n"
         big = []
